@@ -131,6 +131,16 @@ def check_strip(cfg):
     if nbytes != len(without) or n != nprs + 2:
         bad.append(({'kind': 'strip_tif_counts'}, 'strip_tif returned (%d markers, %d bytes); file has %d markers incl. 2 EOF, %d bytes'
                     % (n, nbytes, nprs + 2, len(without))))
+    # a TIF-marked file that was never closed has no end-of-file markers: every record must still come through
+    open_end = with_tif[:len(with_tif) - 2 * L.TIF_LEN]
+    fout = io.BytesIO()
+    try:
+        DeTif.strip_tif(io.BytesIO(open_end), fout)
+        if fout.getvalue() != without:
+            bad.append(({'kind': 'strip_tif_bytes', 'eof_markers': False},
+                        'strip_tif of the file without its two end-of-file markers gives %d bytes, the unmarked file has %d' % (len(fout.getvalue()), len(without))))
+    except Exception as err:  # noqa
+        bad.append(({'kind': 'strip_tif_raises', 'exc': type(err).__name__, 'eof_markers': False}, 'without end-of-file markers: %s: %s' % (type(err).__name__, err)))
     return bad
 
 
